@@ -111,6 +111,11 @@ def run(ctx):
                     pathcall = c
     if W is None:
         raise AnalysisBroken('no function formatting "/proc/%d/stat" reachable from the filter')
+    if not C.in_loop(W, pathcall):
+        # the rules below are written for a walker that formats the path inside its own loop; a walker that delegates the
+        # reading of one stat file to a helper is a shape they do not follow: say so instead of misreading the helper
+        raise AnalysisBroken('%s formats the stat path outside a loop (the walk over the ancestors delegates the reading to it): '
+                             'the X1-X3 rules do not follow that split' % W.name)
     # ---- X1 --------------------------------------------------------------------------------------
     calls = [c for g in fs for c in g.calls() if c.get('callee')]
     names = {c['callee'] for c in calls}
@@ -247,37 +252,45 @@ def run(ctx):
     chk.ob('X2', 'found-only-after-a-match', bool(fedges) and mW == {1} and 1 not in oW, W.where(), W.name,
            'the walker returns %s after a match and %s without one' % (sorted(map(str, mW)), sorted(map(str, oW))),
            how='returns 1 only through the match edge; errors and exhaustion return %s' % sorted(map(str, oW)))
-    # (c) filter: DROP only when the walker said 1
-    rets = C.return_nodes(F)
+    # (c) filter: DROP only when the walker said 1 - whatever the shape of the exit (conditional expression, result
+    # variable, goto-cleanup): the walker's result is pinned to 1, 0 and -1 in turn and the constants followed to the return
     ok = True
     detail = ''
-    for r in rets:
-        v = strip(r.ch[0]) if r.ch else None
-        if v is None:
-            continue
-        if v.get('v') == PASS:
-            continue
-        if v.k == 'ConditionalOperator':
-            c = strip(v.ch[0])
-            t, e = strip(v.ch[1]).get('v'), strip(v.ch[2]).get('v')
-            good = c.k == 'BinaryOperator' and c['op'] == '==' and \
-                any(strip(x).get('v') == 1 for x in c.ch) and t == DROP and e == PASS
-            good = good or (c.k == 'BinaryOperator' and c['op'] == '!=' and any(strip(x).get('v') == 1 for x in c.ch)
-                            and t == PASS and e == DROP)
-            if good:
-                # the tested variable is the walker's result
-                dv = [decl_of(x) for x in c.ch if decl_of(x) is not None]
-                good = bool(dv) and all(strip(d).k == 'CallExpr' and strip(d).get('callee') == W.name
-                                        for d in def_exprs(F, dv[0]['id']) if strip(d).get('v') is None)
-            if not good:
-                ok = False
-                detail = 'the filter returns %s' % render(v)
-        elif v.get('v') == DROP:
+    wcalls = F.calls(W.name)
+    if len(wcalls) != 1:
+        raise AnalysisBroken('%s calls %s %d times' % (F.name, W.name, len(wcalls)))
+    wc_ = wcalls[0]
+    hv_ = common.holder(F, wc_)
+    if hv_ is None:
+        hv_ = ('call', wc_.id)      # the result is tested where it is produced
+    pos_ = C.elem_positions(F)
+    b_, i_ = pos_[C.cfg_elem_of(F, wc_).id]
+    blk_ = F.blocks[b_]
+    j_ = i_
+    for k_ in range(i_, len(blk_.elems)):
+        if any(x is wc_ for x in blk_.elems[k_].walk()):
+            j_ = k_
+    for forced, want_drop in ((1, True), (0, False), (-1, False)):
+        mark = blk_.elems[j_].id
+        paths = common.explore_paths(F, (F.entry, 0), {}, lambda e: e.k == 'ReturnStmt' or e.id == mark, with_env=True,
+                                     force={mark: (hv_, forced)}, after_edge=None)
+        seen_call = False
+        for ev in paths or []:
+            ids = [x.id for x, _ in ev]
+            if mark not in ids:
+                continue            # a return before the walker was consulted (no list: pass)
+            for r, env in ev[ids.index(mark) + 1:]:
+                if r.k != 'ReturnStmt':
+                    continue
+                seen_call = True
+                v = common.const_eval(r.ch[0], env) if r.ch else None
+                if v is None or (v == DROP) != want_drop or (not want_drop and v != PASS):
+                    ok = False
+                    detail = 'with the walker\'s result %d the filter returns %s (%s)' % (
+                        forced, render(r.ch[0]) if r.ch else 'nothing', 'unknown' if v is None else v)
+        if not seen_call:
             ok = False
-            detail = 'unconditional DROP at %s' % r.where()
-        else:
-            ok = False
-            detail = 'the filter returns %s' % render(v)
+            detail = 'no return reached behind the call of %s' % W.name
     chk.ob('X2', 'drop-iff-ancestor-found', ok, F.where(), F.name, detail,
            how='DROP exactly when the walker returned 1 (found); -1 (error) and 0 (not found) give PASS')
     # ---- X3 --------------------------------------------------------------------------------------
